@@ -4,7 +4,12 @@
    (file name -> key -> (value, timestamp)); specification side: model/ValuesSpec.v.
    Parametric in the float type F (fzero, fadd, feqb): no float law is needed by any theorem below.
    Histories: any list of SetPid / New / Inc / Set_ / Get, the identity changing at any point;
-   wf_hist = no two live value objects are bound to the same (file prefix, key). *)
+   wf_hist = no two live value objects are bound to the same (file prefix, key).
+   The theorems named *_any_history carry NO wf_hist hypothesis: they also cover an application that keeps a labels()
+   child while its label set is removed / cleared and created again, or that declares a metric twice (several live
+   value objects for one series).  For those histories the per-cell fold (C09_sum_conserved) is false with or without
+   identity changes - C09_sum_needs_wf_refuted - because two objects overwrite each other through their caches; what the
+   property says about WHERE writes go holds for every history. *)
 From V Require Import lib.PyBase model.Multiproc model.Values model.ValuesSpec proofs.ValuesProofs.
 Open Scope N_scope.
 
@@ -124,3 +129,86 @@ Example C09_example :
       file_total d [s2l "1"; s2l "2"] (s2l "counter", []) (p_key P) = 7%Z
   end.
 Proof. vm_compute. repeat split; intros []. Qed.
+
+(* ---------- every history, several live value objects per series included (no wf_hist) ---------- *)
+
+(* A step executed under identity p changes no file that carries another pid, from any state ANY history reaches. *)
+Theorem C09_writes_only_own_files_any_history :
+  forall (F : Type) (fzero : F) (fadd : F -> F -> F) (feqb : F -> F -> bool)
+         (pid0 : str) (d0 : fs F) (h : list (op F)) (st : state F) (d : fs F) (xs : list (option F))
+         (o : op F) (st' : state F) (d' : fs F) (x : option F),
+    run F fzero fadd feqb (init_state F pid0) d0 h = (st, d, xs) ->
+    step F fzero fadd feqb st d o = (st', d', x) ->
+    forall fn : fname, snd fn <> st_actual F st -> d_find fname_eqb d' fn = d_find fname_eqb d fn.
+Proof.
+  exact (fun F fzero fadd feqb pid0 d0 h st d xs o st' d' x R =>
+           step_own_files_any F fzero fadd feqb st d o st' d' x (reach_BInv F fzero fadd feqb pid0 d0 h st d xs R)).
+Qed.
+Print Assumptions C09_writes_only_own_files_any_history.
+
+(* The identity check (run first by every operation) re-binds EVERY live value object - none is dropped, whatever the
+   number of objects per series - to the file of the CURRENT identity. *)
+Theorem C09_rebinds_every_live_value_any_history :
+  forall (F : Type) (fzero : F) (fadd : F -> F -> F) (feqb : F -> F -> bool)
+         (pid0 : str) (d0 : fs F) (h : list (op F)) (st : state F) (d : fs F) (xs : list (option F))
+         (st1 : state F) (d1 : fs F),
+    run F fzero fadd feqb (init_state F pid0) d0 h = (st, d, xs) ->
+    check_pid F fzero st d = (st1, d1) ->
+    length (st_values F st1) = length (st_values F st)
+    /\ forall (i : nat) (v1 : value F), nth_error (st_values F st1) i = Some v1 ->
+         nth_error (map (v_params F) (st_values F st)) i = Some (v_params F v1)
+         /\ v_file F v1 = (prefix_of (v_params F v1), st_actual F st).
+Proof.
+  exact (fun F fzero fadd feqb pid0 d0 h st d xs st1 d1 R =>
+           check_pid_rebinds_all F fzero st d st1 d1 (reach_BInv F fzero fadd feqb pid0 d0 h st d xs R)).
+Qed.
+Print Assumptions C09_rebinds_every_live_value_any_history.
+
+(* An inc / set through ANY live value object (the i-th ever created, newest of its series or not) leaves the cell of its
+   series in the file of the CURRENT identity. *)
+Theorem C09_update_lands_in_own_file_any_history :
+  forall (F : Type) (fzero : F) (fadd : F -> F -> F) (feqb : F -> F -> bool)
+         (pid0 : str) (d0 : fs F) (h : list (op F)) (st : state F) (d : fs F) (xs : list (option F))
+         (i : nat) (a v : F) (ts : option F) (o : op F) (st' : state F) (d' : fs F) (x : option F),
+    run F fzero fadd feqb (init_state F pid0) d0 h = (st, d, xs) ->
+    o = Inc F i a \/ o = Set_ F i v ts -> step F fzero fadd feqb st d o = (st', d', x) ->
+    forall p : params, nth_error (map (v_params F) (st_values F st)) i = Some p ->
+      exists y, fs_cell F d' (prefix_of p, st_actual F st) (p_key p) = Some y.
+Proof.
+  exact (fun F fzero fadd feqb pid0 d0 h st d xs i a v ts o st' d' x R =>
+           update_lands_in_own_file F fzero fadd feqb st d i a v ts o st' d' x
+             (reach_BInv F fzero fadd feqb pid0 d0 h st d xs R)).
+Qed.
+Print Assumptions C09_update_lands_in_own_file_any_history.
+
+(* non-vacuity of the wider domain: value objects 0 and 1 describe the SAME series (a kept child and its re-creation);
+   the history is not well-formed; after the change to pid "2" an update through the OLDER object 0 lands in file 2 and
+   file 1 keeps what it held. *)
+Example C09_example_two_objects_one_series :
+  let P := mkParams (s2l "counter") [] (mkKey (s2l "c") (s2l "c_total") [] (s2l "help")) in
+  let h := [New Z P; Inc Z 0 1%Z; New Z P; SetPid Z (s2l "2"); Inc Z 0 4%Z] in
+  ~ wf_hist Z [] h /\
+  match run Z 0%Z Z.add Z.eqb (init_state Z (s2l "1")) [] h with
+  | (_, d, _) =>
+      fst (cell_or_zero Z 0%Z d ((s2l "counter", []), s2l "1") (p_key P)) = 1%Z /\
+      fst (cell_or_zero Z 0%Z d ((s2l "counter", []), s2l "2") (p_key P)) = 4%Z
+  end.
+Proof. split; [cbn; intros [_ [H _]]; apply H; left; reflexivity | vm_compute; split; reflexivity]. Qed.
+
+(* wf_hist cannot be dropped from C09_sum_conserved: with two live objects of one series and NO identity change at all,
+   1 and 2 are issued through object 0 and object 1, then 4 through object 0 whose cache is stale: the cell holds 5. *)
+Theorem C09_sum_needs_wf_refuted :
+  exists (pid0 : str) (h : list (op Z)) (fn : fname) (k : key),
+    match run Z 0%Z Z.add Z.eqb (init_state Z pid0) [] h with
+    | (_, d, _) =>
+        cell_or_zero Z 0%Z d fn k
+        <> fold_left (apply_cellop Z 0%Z Z.add Z.eqb) (issued Z pid0 [] h fn k) (cell_or_zero Z 0%Z [] fn k)
+    end.
+Proof.
+  exists (s2l "1").
+  exists (let P := mkParams (s2l "counter") [] (mkKey (s2l "c") (s2l "c_total") [] (s2l "help")) in
+          [New Z P; Inc Z 0 1%Z; New Z P; Inc Z 1 2%Z; Inc Z 0 4%Z]).
+  exists ((s2l "counter", []), s2l "1"), (mkKey (s2l "c") (s2l "c_total") [] (s2l "help")).
+  vm_compute. intros H. discriminate H.
+Qed.
+Print Assumptions C09_sum_needs_wf_refuted.
